@@ -94,6 +94,12 @@ def do_source(rec, hub, U, all_letters, la, regimes, rng, tier):
                         x.sum_values_over(spellings(U, over[::-1] if mode % 2 else over, mode))
                     except Exception:
                         pass
+                if len(over) >= 2:
+                    for ov_ in (tuple(over[::-1]), tuple(over[1:] + over[:1])):  # the same dimensions named in another order
+                        try:
+                            x.get_shares_over(ov_)
+                        except Exception:
+                            pass
                 try:
                     sh = x.get_shares_over(tuple(over))
                     if reg in ("tagged", "dyadic") and over:
@@ -290,9 +296,15 @@ def narrow_int_cases(rec, hub, rng, n_cases):
         U = gen.universe(fd, {"a": 3, "b": 4, "c": 2}, rng=rng)
         la = tuple(str(q) for q in rng.permutation(list("abc"))[: int(rng.integers(1, 4))])
         shape = gen.shape_of(U, la)
-        dt = [np.int8, np.uint8, np.int16, np.int32, np.bool_][int(rng.integers(0, 5))]
-        top = {np.int8: 127, np.uint8: 255, np.int16: 32767, np.int32: 2**31 - 1, np.bool_: 1}[dt]
-        v = rng.integers(max(1, (2 * top) // 3), top + 1, size=shape).astype(dt)  # any two of them exceed the range
+        dt = [np.int8, np.uint8, np.int16, np.int32, np.bool_, np.uint64][int(rng.integers(0, 6))]
+        top = {np.int8: 127, np.uint8: 255, np.int16: 32767, np.int32: 2**31 - 1, np.bool_: 1, np.uint64: 0}[dt]
+        if dt is np.uint64:
+            # unsigned 64-bit counts: one entry beyond 2**63 (no signed type holds it), the others small; every total stays below 2**64
+            v = rng.integers(1, 1000, size=shape).astype(np.uint64)
+            if v.size:
+                v.reshape(-1)[int(rng.integers(0, v.size))] = np.uint64(2**63 + int(rng.integers(1, 10**6)))
+        else:
+            v = rng.integers(max(1, (2 * top) // 3), top + 1, size=shape).astype(dt)  # any two of them exceed the range
         true = np.asarray(v, dtype=object).astype(object) if dt is not np.bool_ else np.asarray(v, dtype=int).astype(object)
         true = np.vectorize(int, otypes=[object])(np.asarray(v)) if v.size else true
 
@@ -306,7 +318,7 @@ def narrow_int_cases(rec, hub, rng, n_cases):
             if g.shape != e.shape:
                 rec.violation(MN, f"{what}:shape-differs", {"dtype": np.dtype(dt).name, "got": list(g.shape), "expected": list(e.shape)})
                 return
-            same = all(float(a) == float(b) for a, b in zip(g.reshape(-1).tolist(), e.reshape(-1).tolist()))
+            same = all((int(a) == int(b)) if g.dtype.kind in "iu" else (float(a) == float(b)) for a, b in zip(g.reshape(-1).tolist(), e.reshape(-1).tolist()))
             if same:
                 return
             # structural signature of the known finding: the result is the true total reduced to the operand's own narrow dtype
